@@ -939,6 +939,365 @@ def _ascii_reader_streams(ctx, op4, drv, sc, ascii_texts):
                 ctx.disagree("ablk", {"dformat": key[0], "L": key[1], "perline": key[2], "numlen": key[3], "text": key[4]}, impl, r)
 
 
+# ---------------------------------------------------------------------------------------------
+# `write` on its arguments (Model/Op4Input.lean, Model/Op4Sparse.lean): inputs for the `wr` / `tod` streams
+
+_WR_DTYPES = ["float64", "float64", "float32", "int64", "int32", "uint8", "bool", "complex128", "complex64", ">f8", ">c16", "uint64"]
+_INT_POOL = [0, 1, -1, 2, 7, -12345, 2 ** 31 - 1, 2 ** 53, 2 ** 53 + 1, 2 ** 53 + 3, -(2 ** 53) - 1, 2 ** 62 + 12345, -(2 ** 63)]
+_F32_POOL = [1.5, -0.1, 1e-45, 3.4e38, 1.17549435e-38, 5.877e-39, 16777217.0, -2.5e-20, 0.0]
+
+
+def _wr_values(rng, n, dt):
+    """n values of numpy dtype `dt` (a few zeros among them), as a 1-d array"""
+    kind = np.dtype(dt).kind
+    if kind == "b":
+        return np.array([rng.random() < 0.6 for _ in range(n)], dtype=bool)
+    if kind in "iu":
+        info = np.iinfo(np.dtype(dt))
+        vals = []
+        for _ in range(n):
+            v = rng.choice(_INT_POOL) if rng.random() < 0.6 else rng.randint(-1000, 1000)
+            if rng.random() < 0.25:
+                v = 0
+            v = min(max(v, info.min), info.max)
+            vals.append(v)
+        return np.array(vals, dtype=np.dtype(dt))
+    if kind == "f":
+        if np.dtype(dt).itemsize == 4:
+            vals = [rng.choice(_F32_POOL) if rng.random() < 0.5 else rng.gauss(0, 100) for _ in range(n)]
+            vals = [0.0 if rng.random() < 0.25 else v for v in vals]
+            with np.errstate(all="ignore"):
+                return np.array(vals, dtype=np.float32)
+        vals = _rand_values(rng, n, rng.choice(["int", "normal", "bits+", "special"]))
+        vals = [0.0 if rng.random() < 0.25 else v for v in vals]
+        return np.array(vals, dtype=np.float64).astype(np.dtype(dt))
+    # complex
+    if np.dtype(dt).itemsize == 8:
+        re = _wr_values(rng, n, "float32")
+        im = _wr_values(rng, n, "float32")
+        return (re + 1j * im).astype(np.complex64)
+    re = _wr_values(rng, n, "float64")
+    im = _wr_values(rng, n, "float64")
+    out = np.empty(n, np.complex128)
+    out.real, out.imag = re, im
+    return out.astype(np.dtype(dt))
+
+
+def _raw_tokens(a):
+    """the logical elements of an ndarray in row-major order as raw tokens of the `wr` protocol"""
+    a = np.asarray(a)
+    flat = a.ravel(order="C")
+    dt = flat.dtype
+    nat = flat.astype(dt.newbyteorder("="))
+    k = dt.kind
+    if k == "b":
+        return ["b%d" % int(v) for v in nat.tolist()]
+    if k in "iu":
+        return ["i%d" % int(v) for v in nat.tolist()]
+    if k == "f" and dt.itemsize == 8:
+        return ["d%d" % v for v in np.ascontiguousarray(nat).view(np.uint64).tolist()]
+    if k == "f" and dt.itemsize == 4:
+        return ["s%d" % v for v in np.ascontiguousarray(nat).view(np.uint32).tolist()]
+    if k == "c" and dt.itemsize == 16:
+        return ["d%d" % v for v in np.ascontiguousarray(nat).view(np.float64).view(np.uint64).tolist()]
+    if k == "c" and dt.itemsize == 8:
+        return ["s%d" % v for v in np.ascontiguousarray(nat).view(np.float32).view(np.uint32).tolist()]
+    raise ValueError("dtype %r" % dt)
+
+
+def _nd_token(a):
+    a = np.asarray(a)
+    cplx = a.dtype.kind == "c"
+    return " ".join(["nd", str(a.ndim)] + [str(d) for d in a.shape] + ["1" if cplx else "0", str(a.size)] + _raw_tokens(a))
+
+
+def _sp_token(A):
+    """a scipy.sparse matrix as `tocoo()` presents it (storage order); double precision values"""
+    C = A.tocoo(copy=True)
+    cplx = np.iscomplexobj(C.data)
+    data = np.asarray(C.data).astype(np.complex128 if cplx else np.float64)
+    vb = _bits(data)
+    w = 2 if cplx else 1
+    t = ["sp", str(C.shape[0]), str(C.shape[1]), "1" if cplx else "0", str(len(C.row))]
+    for k, (i, j) in enumerate(zip(C.row.tolist(), C.col.tolist())):
+        t += [str(i), str(j)] + [str(b) for b in vb[w * k : w * k + w]]
+    return " ".join(t)
+
+
+def _layout_variant(rng, B, tags):
+    """the same logical array in another memory layout / byte order"""
+    t = rng.random()
+    if B.ndim < 1 or B.size == 0 or t < 0.4:
+        return B.copy()
+    if t < 0.55 and B.ndim == 2:
+        tags.add("F-order")
+        return np.asfortranarray(B)
+    if t < 0.8:
+        tags.add("strided")
+        big = np.zeros(tuple(2 * d + 1 for d in B.shape), B.dtype)
+        sl = tuple(slice(1, None, 2) for _ in B.shape)
+        big[sl] = B
+        return big[sl]
+    tags.add("negative-stride")
+    rev = B[tuple(slice(None, None, -1) for _ in B.shape)].copy()
+    return rev[tuple(slice(None, None, -1) for _ in B.shape)]
+
+
+def _gen_wr_sparse(rng, tags):
+    """a scipy.sparse input built from explicit triplets: any order, duplicates (<= 3 per position, so that
+    np.add.reduceat adds sequentially), explicit zeros, cancelling duplicates; all formats"""
+    rows, cols = rng.choice([(1, 1), (3, 3), (4, 4), (5, 2), (2, 6), (6, 4), (7, 7), (4, 1)])
+    cplx = rng.random() < 0.3
+    P = _gen_pattern(rng, rows, cols)
+    sym = rows == cols and rng.random() < 0.4
+    trip = []
+    for i in range(rows):
+        for j in range(cols):
+            if not P[i, j] and not (sym and P[j, i]):
+                continue
+            v = _rand_values(rng, 1, rng.choice(["int", "normal", "special"]))[0]
+            if abs(v) > 1e150:
+                v = 2.5e120     # (sums of duplicates must stay finite in every order)
+            if cplx:
+                v = complex(v, rng.choice([0.0, -0.0, 2.5, _rand_values(rng, 1, "normal")[0]]))
+                if rng.random() < 0.15:
+                    v = complex(-0.0, v.imag if v.imag != 0 else 1.0)
+            trip.append([i, j, v])
+    if sym:
+        d = {(i, j): v for i, j, v in trip}
+        trip = [[i, j, d.get((min(i, j), max(i, j)), v)] for i, j, v in trip]
+    fmt = rng.choice(["coo", "coo", "csr", "csc", "bsr", "dia", "lil"])
+    dtype = "complex128" if cplx else rng.choice(["float64", "float64", "float64", "float32", "int64"])
+    if dtype != "float64" and not cplx:
+        # values that survive the conversion to float32 / int64 as finite numbers
+        trip = [[i, j, float(rng.choice([1, 2, 3, -1, -7, 1000, 0.5, -2.25, 16777217, 1e-3]))] for i, j, _ in trip]
+    dup_ok = fmt in ("coo", "csr", "csc") and dtype in ("float64", "complex128")
+    out = []
+    for i, j, v in trip:
+        t = rng.random()
+        if dup_ok and t < 0.2:
+            tags.add("duplicates")
+            parts = [v * 0.25, v * 0.5] if rng.random() < 0.5 else [v, -v]
+            if rng.random() < 0.5:
+                parts.append(v * 0.125 if not cplx else complex(v.real, 0.0))
+            out += [[i, j, x] for x in parts]
+        else:
+            out.append([i, j, v])
+    if fmt in ("coo", "csr", "csc") and rng.random() < 0.3 and rows * cols:
+        tags.add("explicit-zero")
+        out.append([rng.randrange(rows), rng.randrange(cols), 0.0])
+        if rng.random() < 0.5:
+            out.append([rng.randrange(rows), rng.randrange(cols), -0.0])
+    rng.shuffle(out)
+    if len(out) > 1:
+        tags.add("unsorted")
+    I = np.array([t[0] for t in out], dtype=np.int32)
+    J = np.array([t[1] for t in out], dtype=np.int32)
+    V = np.array([t[2] for t in out], dtype=np.complex128 if cplx else np.float64)
+    if dtype == "float32":
+        V = V.astype(np.float32)
+        tags.add("sparse-float32")
+    elif dtype == "int64":
+        with np.errstate(all="ignore"):
+            V = np.where(np.abs(V) < 1e15, np.round(V), 3.0).astype(np.int64)
+        tags.add("sparse-int")
+    if fmt == "coo":
+        A = sp.coo_matrix((V, (I, J)), shape=(rows, cols))
+    elif fmt in ("csr", "csc"):
+        # built from the raw arrays: duplicates and unsorted indices are kept as they are
+        major, minor, n = (I, J, rows) if fmt == "csr" else (J, I, cols)
+        order = np.argsort(major, kind="stable")
+        indptr = np.concatenate(([0], np.cumsum(np.bincount(major, minlength=n)))).astype(np.int32)
+        cls = sp.csr_matrix if fmt == "csr" else sp.csc_matrix
+        A = cls((V[order], minor[order], indptr), shape=(rows, cols))
+    else:
+        A = sp.coo_matrix((V, (I, J)), shape=(rows, cols))
+        A = {"bsr": lambda: A.tobsr(), "dia": lambda: A.todia(), "lil": lambda: A.tolil()}[fmt]()
+    tags.add("sparse-" + fmt)
+    if cplx:
+        tags.add("sparse-complex")
+    return A
+
+
+def _gen_wr_input(rng, tags):
+    """one matrix argument of `write`: (object, token)"""
+    t = rng.random()
+    if t < 0.3:
+        A = _gen_wr_sparse(rng, tags)
+        return A, _sp_token(A)
+    dt = rng.choice(_WR_DTYPES)
+    k = np.dtype(dt).kind
+    tags.add({"f": "float%d" % (8 * np.dtype(dt).itemsize), "i": "int", "u": "int", "b": "bool",
+              "c": "complex%d" % (8 * np.dtype(dt).itemsize)}[k])
+    if not np.dtype(dt).isnative:
+        tags.add("byteswapped")
+    u = rng.random()
+    if u < 0.1:
+        tags.add("scalar")
+        B = _wr_values(rng, 1, dt).reshape(())
+        if rng.random() < 0.5 and np.dtype(dt).isnative and k in "fi" and np.dtype(dt).itemsize == 8:
+            obj = B.item()      # a python float / int
+            return obj, _nd_token(np.asarray(obj))
+        return B, _nd_token(B)
+    if u < 0.3:
+        tags.add("1d")
+        n = rng.choice([1, 2, 3, 5, 8])
+        B = _wr_values(rng, n, dt)
+    elif u < 0.36:
+        tags.add("3d")
+        shp = rng.choice([(1, 1, 1), (2, 1, 2), (1, 2, 3)])
+        B = _wr_values(rng, int(np.prod(shp)), dt).reshape(shp)
+    else:
+        rows, cols = rng.choice([(1, 1), (1, 4), (4, 1), (2, 2), (3, 3), (4, 4), (3, 5), (6, 2), (0, 2), (2, 0)])
+        B = _wr_values(rng, rows * cols, dt).reshape(rows, cols)
+        if rows == cols and rows > 1 and rng.random() < 0.5:
+            iu = np.triu(np.ones(B.shape, bool))
+            B = np.where(iu, B, B.T)
+            if rng.random() < 0.3 and k in "fc":
+                B = B.copy()
+                with np.errstate(all="ignore"):
+                    nv = B[rows - 1, 0] * B.dtype.type(1 + 1e-7) if rng.random() < 0.5 else B[rows - 1, 0] + B.dtype.type(1)
+                if np.isfinite(nv):
+                    B[rows - 1, 0] = nv
+    obj = _layout_variant(rng, B, tags)
+    if B.ndim == 2 and B.size and rng.random() < 0.1 and np.dtype(dt).isnative and k in "fi":
+        tags.add("list-of-lists")
+        obj = B.tolist()
+        return obj, _nd_token(np.asarray(obj))
+    return obj, _nd_token(obj)
+
+
+def _gen_wr_case(rng):
+    tags = set()
+    n = rng.choice([1, 1, 2, 3])
+    items = [_gen_wr_input(rng, tags) for _ in range(n)]
+    names = [_gen_name(rng) for _ in range(n)]
+    form_of = lambda: None if rng.random() < 0.55 else rng.choice([1, 2, 3, 6, 8, 9, 13])
+    opt = rng.choice(["auto", "dense", "bigmat", "nonbigmat"])
+    binary = rng.random() < 0.6
+    case = {"opt": opt, "binary": binary, "endian": rng.choice(["<", ">"]), "digits": rng.choice([16, 16, 9, 3, 17]), "tags": tags}
+    kind = rng.choice(["dict", "list", "list", "one"]) if n > 1 or rng.random() < 0.5 else "one"
+    if kind == "one" and n > 1:
+        kind = "list"
+    tok = []
+    if kind == "dict":
+        tags.add("dict")
+        while len(set(names)) < n:
+            names = [_gen_name(rng) for _ in range(n)]
+        d, parts = {}, []
+        for nm, (obj, mt) in zip(names, items):
+            if isinstance(obj, list):
+                obj = np.asarray(obj)   # (a list as a mapping value means `(matrix, form)`: documented)
+            t = rng.random()
+            if t < 0.4:
+                d[nm] = obj
+                parts += [nm.encode().hex() or "-", "M", mt]
+            elif t < 0.55:
+                d[nm] = (obj, None)
+                parts += [nm.encode().hex() or "-", "N", mt]
+            else:
+                f = rng.choice([1, 2, 6, 9])
+                d[nm] = (obj, f) if rng.random() < 0.5 else [obj, f]
+                parts += [nm.encode().hex() or "-", "P %d" % f, mt]
+                tags.add("dict-form")
+        case["args"] = (d, None, None)
+        tok = ["D", str(n)] + parts + ["L", "0", "N"]
+    elif kind == "list":
+        tags.add("list")
+        forms = None
+        ftok = ["N"]
+        t = rng.random()
+        if t < 0.3:
+            forms = [form_of() for _ in range(n)]
+            ftok = ["L", str(n)] + ["-" if f is None else str(f) for f in forms]
+        elif t < 0.4 and n > 1:
+            forms = [form_of() for _ in range(n - 1)]
+            ftok = ["L", str(n - 1)] + ["-" if f is None else str(f) for f in forms]
+            tags.add("forms-short")
+        mats = [o for o, _ in items]
+        if rng.random() < 0.3:
+            mats = tuple(mats)
+        case["args"] = (list(names), mats, forms)
+        tok = ["L", str(n)] + [nm.encode().hex() or "-" for nm in names] + ["L", str(n)] + [mt for _, mt in items] + ftok
+    else:
+        tags.add("one")
+        f = form_of()
+        if isinstance(items[0][0], list):
+            items[0] = (np.asarray(items[0][0]), items[0][1])   # (a list as `matrices` means a list of matrices: documented)
+        case["args"] = (names[0], items[0][0], f)
+        tok = ["O", names[0].encode().hex() or "-", "O", items[0][1]] + (["N"] if f is None else ["O", str(f)])
+    e = {"<": "l", ">": "b"}[case["endian"]]
+    case["token"] = "wr %s %s %d %s %s" % ("b" if binary else "a", e, case["digits"],
+                                          {"auto": "a", "dense": "d", "bigmat": "b", "nonbigmat": "n"}[opt], " ".join(tok))
+    return case
+
+
+def _write_args_streams(ctx, op4, drv, sc):
+    rng = ctx.rng
+    req, post = [], []
+    for _ in range(ctx.pick(700, 5000)):
+        c = _gen_wr_case(rng)
+        p = sc.path()
+        names, mats, forms = c["args"]
+        try:
+            with warnings.catch_warnings():
+                warnings.simplefilter("ignore")
+                op4.write(p, names, mats, binary=c["binary"], digits=c["digits"], endian=c["endian"], sparse=c["opt"], forms=forms)
+            impl = open(p, "rb").read().hex()
+        except struct.error:
+            impl = "struct_error"
+        except ValueError:
+            impl = "ValueError"
+        except Exception as ex:  # noqa: BLE001
+            impl = "exception:" + type(ex).__name__
+        req.append(c["token"])
+        post.append(("wr", c, impl))
+    # -- coo_matrix((V, (I, J)), shape).toarray() ------------------------------------------------------------
+    for _ in range(ctx.pick(300, 2000)):
+        rows, cols = rng.randint(1, 6), rng.randint(1, 5)
+        cplx = rng.random() < 0.4
+        n = rng.randint(0, 12)
+        I = [rng.randrange(rows) for _ in range(n)]
+        J = [rng.randrange(cols) for _ in range(n)]
+        # at most 3 triplets per position
+        seen, keep = {}, []
+        for k in range(n):
+            seen[(I[k], J[k])] = seen.get((I[k], J[k]), 0) + 1
+            if seen[(I[k], J[k])] <= 3:
+                keep.append(k)
+        I, J = [I[k] for k in keep], [J[k] for k in keep]
+        pool = SPECIAL + [0.0, -0.0, -0.0, 1.0, -1.0]
+        V = [complex(rng.choice(pool), rng.choice(pool)) if cplx else rng.choice(pool) for _ in keep]
+        with np.errstate(all="ignore"):
+            X = sp.coo_matrix((np.array(V, complex if cplx else float), (np.array(I, int), np.array(J, int))), shape=(rows, cols)).toarray()
+        vb = _bits(np.array(V, complex if cplx else float))
+        w = 2 if cplx else 1
+        t = ["tod", "1" if cplx else "0", str(rows), str(cols), str(len(I))]
+        for k in range(len(I)):
+            t += [str(I[k]), str(J[k])] + [str(b) for b in vb[w * k : w * k + w]]
+        req.append(" ".join(t))
+        post.append(("tod", (cplx, rows, cols, I, J, [repr(v) for v in V]), " ".join(map(str, _colmajor_bits(X)))))
+    rep = drv.ask(req)
+    for (stream, c, impl), r in zip(post, rep):
+        if stream == "wr":
+            ctx.case(("wr", c["token"]), nontrivial=True, branch="stream:wr")
+            for t in c["tags"]:
+                ctx.count("wr:" + t)
+            ctx.count("wr:binary" if c["binary"] else "wr:ascii")
+            ctx.count("wr:opt-" + c["opt"])
+            if impl in ("ValueError", "struct_error"):
+                ctx.count("wr:" + impl)
+            if r != impl:
+                show = lambda v: (v[:300] + "…") if isinstance(v, str) and len(v) > 300 else v
+                ctx.disagree("wr", {"write_args": c["token"], "tags": sorted(c["tags"])}, show(impl), show(r))
+        else:
+            ctx.case(("tod", c), nontrivial=True, branch="stream:tod")
+            if len(set(zip(c[3], c[4]))) < len(c[3]):
+                ctx.count("tod:duplicates")
+            if r != impl:
+                ctx.disagree("tod", {"cplx": c[0], "rows": c[1], "cols": c[2], "I": c[3], "J": c[4], "V": c[5]}, impl, r)
+
+
 def correspondence(ctx):
     op4 = _op4()
     rng = ctx.rng
@@ -1103,6 +1462,7 @@ def correspondence(ctx):
                     ctx.sample({"names": case["names"], "opt": case["opt"], "endian": case["endian"],
                                 "shapes": [list(m["D"].shape) for m in case["mats"]], "bytes": len(impl) // 2})
         _ascii_reader_streams(ctx, op4, drv, sc, ascii_texts)
+        _write_args_streams(ctx, op4, drv, sc)
         ctx.extra["first_disagreements"] = [
             {"stream": d["stream"], "impl": str(d["impl"])[:400], "model": str(d["model"])[:400],
              "input": {k: v for k, v in d["input"].items() if k != "mats"} if isinstance(d["input"], dict) else d["input"],
@@ -1125,7 +1485,15 @@ def correspondence(ctx):
                                 "amut:lower", "amut:no-format", "amut:title-blanks", "amut:later-r-garbage", "amut:defaults-used",
                                 "amut:rejected", "amut:accepted", "stream:afld", "afld:ValueError", "afld:value",
                                 "stream:aint", "aint:ValueError", "aint:value", "stream:avals", "avals:ValueError", "avals:complex",
-                                "stream:ablk", "ablk:dformat", "ablk:partial-last-line", "ablk:short-file"])
+                                "stream:ablk", "ablk:dformat", "ablk:partial-last-line", "ablk:short-file"]
+                             + ["stream:wr", "stream:tod", "tod:duplicates", "wr:binary", "wr:ascii", "wr:dict", "wr:dict-form",
+                                "wr:list", "wr:one", "wr:forms-short", "wr:scalar", "wr:1d", "wr:3d", "wr:ValueError",
+                                "wr:float64", "wr:float32", "wr:int", "wr:bool", "wr:complex128", "wr:complex64",
+                                "wr:byteswapped", "wr:F-order", "wr:strided", "wr:negative-stride", "wr:list-of-lists",
+                                "wr:sparse-coo", "wr:sparse-csr", "wr:sparse-csc", "wr:sparse-bsr", "wr:sparse-dia",
+                                "wr:sparse-lil", "wr:sparse-complex", "wr:sparse-float32", "wr:sparse-int",
+                                "wr:duplicates", "wr:explicit-zero", "wr:unsorted", "wr:opt-auto", "wr:opt-dense",
+                                "wr:opt-bigmat", "wr:opt-nonbigmat"])
     finally:
         sc.close()
 
